@@ -296,6 +296,9 @@ func runJobs(l *symex.Loaded, hs []*harnessFile, jobs []job, workers int, cfg sy
 					if v, ok := j.Spec.Opts["unwind"]; ok {
 						c.Unwind, _ = strconv.Atoi(v)
 					}
+					if v, ok := j.Spec.Opts["hb"]; ok {
+						c.NoRaceCheck = v == "0"
+					}
 					if v, ok := j.Spec.Opts["arith"]; ok {
 						c.ArithFirst = v != "0"
 					}
